@@ -1,24 +1,45 @@
 RC = "internal/app/referenceclient"
+H = "referenceclient/"
 
 CHECK = {
     "level": "exploration",
-    "assumptions": [],
+    "assumptions": [
+        "well-formedness is judged by encoders / a reference model written from the Connect, gRPC (PROTOCOL-HTTP2) and gRPC-Web specifications and RFC 7230 / 8259 / 4648, not from wire_details.go",
+        "malformation classes are those the property names and wire_details.go claims to report; each mutant differs from a silent base rendering in exactly one place, and 'flagged' means at least one feedback message (not a particular wording)",
+        "the reference server is exercised in-process through RunInReferenceMode on loopback, plain text, HTTP/1.1 and h2c, identity encoding; TLS, HTTP/3 and compressed error bodies are outside this check",
+        "arbitrary input is bounded: all byte strings of length <= 2, all strings of length <= 4 (quick) / 5 (thorough) over a 13-symbol JSON/trailer alphabet, plus typed grammars; longer arbitrary input is outside the bound (DESIGN.md §5)",
+        "detail types are registered ones (the property's quantifier); unregistered types with a debug member are exercised for robustness only",
+    ],
     "manifest": {
         "engine": "ENUM",
-        "technique": "bounded-exhaustive enumeration against a reference model",
-        "text": "tbd",
-        "note": "tbd",
-        "design_ref": "DESIGN.md §4 C13",
+        "technique": "bounded-exhaustive enumeration against reference encoders / a reference model",
+        "text": "In-package harness of the reference client's wire examiners (examineConnectError, examineConnectEndStream, "
+                "examineGRPCEndStream, checkGRPCStatus, checkBinaryMetadata, checkNoDuplicateKeys, examineWireDetails). "
+                "(1) An error grid (16 codes x {every 1-byte UTF-8 message, every pair over a 12-symbol alphabet incl. %, space, DEL, NUL, U+0080, 3- and 4-byte runes} "
+                "x 0-2 details of 9 registered types x 8 metadata maps) is rendered by the repository's own grpcStatusTrailers / grpcWebStatusEndStream / "
+                "PercentEncodeMessage (called directly), by connect-go's ErrorWriter and by independent spec encoders: every rendering must draw no feedback. "
+                "(2) The real reference server (RunInReferenceMode, loopback, HTTP/1.1 and h2c) is asked by a plain net/http client for a sub-grid of the errors over "
+                "Connect / gRPC-Web / gRPC x unary / client-stream / server-stream x with/without response headers (about 5k-10k requests); the raw unary error JSON, "
+                "end-stream message, gRPC-Web trailer block, trailers-only headers and HTTP trailers must draw no feedback, directly, through examineWireDetails with a hand-built trace "
+                "and through the client's own capturing transport. (3) Every single malformation (about 60 classes: code missing/unknown/non-string, duplicate key at every nesting level, "
+                "unknown key, wrong JSON type per member, bad type name, padded/invalid base64, truncation at every byte, LF/CR for CRLF, missing final CRLF, blank line, upper-case key, "
+                "every illegal byte at every position of field names and values, bad percent-encoding, unescaped bytes, status missing/duplicated/non-numeric/out of range, "
+                "details-bin disagreeing in code or message, HTTP trailers outside gRPC) of 3-5 base renderings must draw >= 1 message. (4) Typed grammars of all member forms, judged by a model; "
+                "every JSON document up to a nesting bound into checkNoDuplicateKeys. (5) All short byte strings into 19 entry points: never a panic.",
+        "note": "Oracle independent of the examiners; well-formed = what the specs allow (a raw leading/trailing blank in grpc-message is allowed by the gRPC grammar). "
+                "The unexported server encoders are reached through a build-tag-guarded export shim that exists only in the overlay (harness/referenceclient/c13_srvexport.go).",
+        "design_ref": "DESIGN.md §2.2, §4 C13, §5",
     },
     "units": [
         {
             "name": "c13-enum", "pkg": RC,
-            "harness": ["referenceclient/c13_test.go", "referenceclient/c13_common_test.go", "referenceclient/c13_wellformed_test.go",
-                        "referenceclient/c13_server_test.go", "referenceclient/c13_malformed_test.go", "referenceclient/c13_robust_test.go"],
+            "harness": [H + "c13_test.go", H + "c13_common_test.go", H + "c13_wellformed_test.go",
+                        H + "c13_server_test.go", H + "c13_malformed_test.go", H + "c13_robust_test.go"],
+            # overlay-only file in the server package: exported wrappers of grpcStatusTrailers / grpcWebStatusEndStream
             "extra_files": {"internal/app/referenceserver/zz_verif_c13_srvexport.go": "harness/referenceclient/c13_srvexport.go"},
             "test": "^TestVerifC13$",
             "shards": {"quick": 16, "thorough": 16},
-            "budget_s": {"quick": 40, "thorough": 420},
+            "budget_s": {"quick": 45, "thorough": 480},
         },
     ],
 }
